@@ -106,6 +106,10 @@ var fieldClass = map[string]string{
 // the dynamic oracles (state snapshots, differential results, race detector) catch on their own.
 var noStatic = os.Getenv("C10_NO_STATIC") != ""
 
+// noSnapshot (development switch C10_NO_SNAPSHOT=1) disables the before/after state comparison as well, leaving the
+// differential results, the parallel-vs-sequential comparison and the race detector.
+var noSnapshot = os.Getenv("C10_NO_SNAPSHOT") != ""
+
 var idxRe = regexp.MustCompile(`\[[^\]]*\]`)
 
 // stripIdx removes slice/map indices from a path (stable failure keys).
@@ -440,6 +444,9 @@ func compareConfig(ref, cp *snapshot, fresh bool, shape bool, skip []string) []d
 // compareState compares two snapshots of the SAME object taken before and after something that must not change it.
 // ignore lists classes whose content may change (e.g. caches; buffers when sharing is documented).
 func compareState(before, after *snapshot, ignore ...string) []diffIssue {
+	if noSnapshot {
+		return nil
+	}
 	ign := map[string]bool{}
 	for _, c := range ignore {
 		ign[c] = true
